@@ -9,13 +9,15 @@ From Coq Require Import Permutation.
 Local Open Scope Z_scope.
 
 (* ---- "writes leave a zero-filled gap" ------------------------------------------------------- *)
+(* [drop_privs (v_user v) m]: a write by a user who is not an administrator clears the set-id bits of the file (as
+   file_remove_privs); for an administrator it is [m] *)
 (* Write through a handle open for writing, not in append mode, whose offset is at or beyond the end:
    the file becomes old bytes ++ ZEROS up to the offset ++ b, for every offset, size and content. *)
 Theorem C02_gap : forall s v f c d k i m b,
   hd_name f <> [] -> hd_node f = Some c -> get (f_heap s) c = Some (NFile d k i m) ->
   has (hd_mode f) OpenWrite = true -> has (hd_mode f) OpenAppend = false -> zlen d <= hd_at f -> b <> [] ->
   f_write s v f b =
-    (with_heap s (upd (f_heap s) c (NFile (d ++ zeros (Z.to_nat (hd_at f) - length d) ++ b) k i m)),
+    (with_heap s (upd (f_heap s) c (NFile (d ++ zeros (Z.to_nat (hd_at f) - length d) ++ b) k i (drop_privs (v_user v) m))),
      set_at f (hd_at f + zlen b), RInt (zlen b)).
 Proof. intros. eapply gap_write; eassumption. Qed.
 
@@ -23,7 +25,7 @@ Theorem C02_gap_at : forall s v f c d k i m b off,
   hd_name f <> [] -> hd_node f = Some c -> get (f_heap s) c = Some (NFile d k i m) ->
   has (hd_mode f) OpenWrite = true -> has (hd_mode f) OpenAppend = false -> zlen d <= off -> b <> [] ->
   f_write_at s v f b off =
-    (with_heap s (upd (f_heap s) c (NFile (d ++ zeros (Z.to_nat off - length d) ++ b) k i m)), RInt (zlen b)).
+    (with_heap s (upd (f_heap s) c (NFile (d ++ zeros (Z.to_nat off - length d) ++ b) k i (drop_privs (v_user v) m))), RInt (zlen b)).
 Proof. intros. eapply gap_write_at; eassumption. Qed.
 
 (* ... and at ANY offset the result is described byte by byte: bytes before the offset are the old ones or,
@@ -32,7 +34,7 @@ Theorem C02_write_bytes : forall s v f c d k i m b,
   hd_name f <> [] -> hd_node f = Some c -> get (f_heap s) c = Some (NFile d k i m) ->
   has (hd_mode f) OpenWrite = true -> b <> [] ->
   let pos := Z.to_nat (if has (hd_mode f) OpenAppend then zlen d else hd_at f) in
-  exists d' f', f_write s v f b = (with_heap s (upd (f_heap s) c (NFile d' k i m)), f', RInt (zlen b))
+  exists d' f', f_write s v f b = (with_heap s (upd (f_heap s) c (NFile d' k i (drop_privs (v_user v) m))), f', RInt (zlen b))
     /\ forall j, nth_error d' j =
          if Nat.ltb j pos then (if Nat.ltb j (length d) then nth_error d j else Some 0%N)
          else if Nat.ltb j (pos + length b) then nth_error b (j - pos) else nth_error d j.
@@ -57,7 +59,7 @@ Theorem C02_append : forall s v f c d k i m b,
   hd_name f <> [] -> hd_node f = Some c -> get (f_heap s) c = Some (NFile d k i m) ->
   has (hd_mode f) OpenWrite = true -> has (hd_mode f) OpenAppend = true -> b <> [] ->
   f_write s v f b =
-    (with_heap s (upd (f_heap s) c (NFile (d ++ b) k i m)), set_at f (zlen d + zlen b), RInt (zlen b)).
+    (with_heap s (upd (f_heap s) c (NFile (d ++ b) k i (drop_privs (v_user v) m))), set_at f (zlen d + zlen b), RInt (zlen b)).
 Proof. intros. eapply append_write; eassumption. Qed.
 
 (* ---- "the access mode of the handle is enforced" ------------------------------------------------ *)
